@@ -16,7 +16,7 @@ use vcore::gram::{Assoc, RefGrammar, Sym, Universe, family_seeds};
 use vcore::report::Ctx;
 
 #[derive(Clone, Copy, PartialEq, Eq, Debug)]
-enum Kind {
+pub enum Kind {
     NoAction,
     Gpt,
     UserAction,
@@ -25,7 +25,7 @@ enum Kind {
 }
 
 impl Kind {
-    fn yk(&self) -> YaccKind {
+    pub fn yk(&self) -> YaccKind {
         match self {
             Kind::NoAction => YaccKind::Original(YaccOriginalActionKind::NoAction),
             Kind::Gpt => YaccKind::Original(YaccOriginalActionKind::GenericParseTree),
@@ -46,9 +46,9 @@ impl Kind {
 }
 
 #[derive(Clone, Debug)]
-struct YSpec {
-    g: RefGrammar,
-    kind: Kind,
+pub struct YSpec {
+    pub g: RefGrammar,
+    pub kind: Kind,
     token_decl: bool,
     explicit_start: bool,
     epp: bool,
@@ -63,9 +63,9 @@ struct YSpec {
     features: Vec<&'static str>,
 }
 
-const FEATURES: [&str; 12] = ["token_decl", "explicit_start", "precs", "prec_override", "epp", "avoid_insert", "expect", "expectrr", "unused_rule", "parse_param", "parse_generics", "programs"];
+pub const FEATURES: [&str; 12] = ["token_decl", "explicit_start", "precs", "prec_override", "epp", "avoid_insert", "expect", "expectrr", "unused_rule", "parse_param", "parse_generics", "programs"];
 
-fn mk_spec(base: &RefGrammar, kind: Kind, feats: &[&'static str]) -> Option<YSpec> {
+pub fn mk_spec(base: &RefGrammar, kind: Kind, feats: &[&'static str]) -> Option<YSpec> {
     let mut g = base.clone();
     let has = |f: &str| feats.contains(&f);
     // non-ASCII and punctuation token names keep the quoting paths honest
@@ -118,18 +118,18 @@ fn mk_spec(base: &RefGrammar, kind: Kind, feats: &[&'static str]) -> Option<YSpe
 }
 
 #[derive(Clone, Copy, Debug, PartialEq, Eq)]
-enum Quote {
+pub enum Quote {
     Single,
     Double,
     Bare,
 }
 #[derive(Clone, Copy, Debug, PartialEq, Eq)]
-struct Layout {
-    quote: Quote,
-    gap: usize,
-    reversed: bool,
-    percent_empty: bool,
-    header: bool,
+pub struct Layout {
+    pub quote: Quote,
+    pub gap: usize,
+    pub reversed: bool,
+    pub percent_empty: bool,
+    pub header: bool,
 }
 
 const GAPS: [&str; 6] = [" ", "\n", "\t ", " // comment 'x' { |\n", " /* c: ; | */ ", " /* first line\n// second line */ "];
@@ -147,11 +147,11 @@ fn rule_type(r: usize) -> String {
     format!("Result<Vec<T{}>, ()>", r)
 }
 
-struct Rendered {
-    text: String,
+pub struct Rendered {
+    pub text: String,
 }
 
-fn render(s: &YSpec, l: &Layout) -> Option<Rendered> {
+pub fn render(s: &YSpec, l: &Layout) -> Option<Rendered> {
     let g = &s.g;
     if l.quote == Quote::Bare && !s.token_decl {
         return None;
@@ -616,6 +616,14 @@ fn check_one(ctx: &Ctx, s: &YSpec, l: &Layout, text: &str, st: &mut Stats) -> Op
     // ---- every index the API hands out is in range
     for p in 0..nprods {
         let pidx = PIdx(p as u32);
+        // every per-production query must answer for every valid index
+        if let Err(e) = std::panic::catch_unwind(std::panic::AssertUnwindSafe(|| {
+            let sp = grm.prod_span(pidx);
+            (sp, grm.action(pidx).clone(), grm.action_span(pidx), grm.prod_precedence(pidx), grm.pp_prod(pidx), grm.prod_len(pidx))
+        })) {
+            bad("c10-query-panic", format!("a per-production query panics for production {} of {} ({})", p, nprods, vcore::report::panic_msg(&e)));
+            return None;
+        }
         if usize::from(grm.prod_to_rule(pidx)) >= nrules {
             bad("c10-range", format!("prod_to_rule({}) out of range", p));
         }
